@@ -30,6 +30,60 @@ PARSERS = [
 ]
 
 
+def short_reads(chk: Check) -> None:
+    """The environment delivers fewer bytes than asked to the first read that is allowed to be short (and, separately,
+    hands over a source that is not positioned at 0): the frames parsed must be the ones parsed with full reads."""
+    prog = chk.program
+    rule = "C09.DIFF.short-first-read"
+    chk.rule(rule, "with only 1 or 2 bytes delivered to the first short-able read, or a source already positioned after an application header, the parser returns the same frames", floor=30)
+    for sname, skw in SOURCES:
+        for delim in (True, False):
+            for variant in ("short=1", "short=2", "start=4"):
+                for integ, mod, parser in PARSERS[:1] + PARSERS[3:4]:
+
+                    def scenario(it: Interp) -> Any:
+                        k = K.Kit(it)
+                        w = K.Wire(it)
+                        frames = [w.frame([w.options_row(1, 1)] + w.statement_rows(1, 1, "a"))]
+                        if delim:
+                            frames.append(w.frame(w.statement_rows(1, 1, "b")))
+                        hdr = b"\x20\x0a\x05" if delim else b"\x0a\x05\x0a"
+                        kw = dict(skw)
+                        if variant.startswith("short"):
+                            kw["short_first_read"] = int(variant[-1])
+                        else:
+                            hdr = b"HDR:" + hdr
+                            kw["start"] = 4
+                        inp = K.models.make_input(AIter(iter(frames), "frames"), hdr, **kw)
+                        got = it.drain(k.call(k.get(mod, parser), inp))
+                        return len(got), [e for e in it.events if e["kind"] == "misaligned"], [e for e in it.events if e["kind"] == "short_read"]
+
+                    inst = f"{sname} | delimited={delim} | {variant} | {integ}.{parser}"
+                    branch = "seekable-branch" if skw["seekable"] else "non-seekable-branch"
+                    for it, out in explore(prog, scenario, max_paths=8, generic_strings=True):
+                        chk.paths += 1
+                        if out[0] != "ok":
+                            shorted = [e for e in it.events if e["kind"] == "short_read"]
+                            via = shorted[0]["method"] if shorted else "read"
+                            if variant.startswith("short") and delim and shorted:
+                                # the documented defect (known finding): a short header makes a delimited stream look non-delimited
+                                chk.fail("C09.TAINT.exact-header", inst, f"pyjelly.parse.ioutils.get_options_and_frames:{branch}:{via}", f"header bytes come from {via}() which delivered {shorted[0]['got']} byte(s): the delimited stream is misread ({it.exc_class_name(out[1].exc)})")
+                            else:
+                                chk.fail(rule, inst, f"pyjelly.parse.ioutils.get_options_and_frames:{branch}:{variant.split('=')[0]}-{'delimited' if delim else 'nondelimited'}", f"valid {'delimited' if delim else 'non-delimited'} input raises {it.exc_class_name(out[1].exc)} at {out[1].site} when {'the first read delivers ' + variant[-1] + ' byte(s)' if variant.startswith('short') else 'the source is handed over positioned after a 4-byte application header'}")
+                            continue
+                        n, mis, shorted = out[1]
+                        want = 2 if delim else 1
+                        if mis:
+                            chk.fail(rule, inst, f"pyjelly.parse.ioutils.get_options_and_frames:{branch}:{variant.split('=')[0]}-offset", f"frames are parsed from offset {mis[0]['offset']} relative to where the caller handed the source over")
+                        elif n != want:
+                            if variant.startswith("short") and delim and shorted:
+                                chk.fail("C09.TAINT.exact-header", inst, f"pyjelly.parse.ioutils.get_options_and_frames:{branch}:{shorted[0]['method']}", f"header bytes come from {shorted[0]['method']}() which delivered {shorted[0]['got']} byte(s): {n} of {want} statements are returned")
+                            else:
+                                chk.fail(rule, inst, f"pyjelly.parse.ioutils.get_options_and_frames:{branch}:{variant.split('=')[0]}-{'delimited' if delim else 'nondelimited'}", f"{n} of {want} statements are returned")
+                        else:
+                            chk.ok(rule, inst, {"short_reads": len(shorted)})
+
+
 def check(chk: Check) -> None:
     prog = chk.program
     chk.rule("C09.TAINT.exact-header", "the bytes handed to the framing detector come from a read that is exact-or-EOF for the receiver's class", floor=40)
@@ -113,3 +167,4 @@ def check(chk: Check) -> None:
                             chk.fail("C09.TABLE.frame-reader", inst, "pyjelly.parse.ioutils.frame_iterator", "parse_length_prefixed reads from the raw unbuffered source (short reads tear frames)")
                         else:
                             chk.ok("C09.TABLE.frame-reader", inst, None)
+    chk.part("short-reads", lambda: short_reads(chk))
